@@ -14,7 +14,7 @@ RULE = ("records = valid diff/interp/min/max/cumsum calls from C01's generator, 
         "inputs on wrong positions or wrong arity (C11's generator); the TLA+ specification classifies every record "
         "itself; non-trivial = distinct (class, op, layout) combinations")
 
-EDITS = ["axis-missing", "no-dim", "two-dims", "same-position", "absent-position", "boundary-word", "position-word", "fill-nonnumeric"]
+EDITS = ["axis-missing", "no-dim", "two-dims", "same-position", "absent-position", "face-to-face", "boundary-word", "position-word", "fill-nonnumeric"]
 
 
 def edit_case(rng, c, kind):
@@ -56,9 +56,15 @@ def edit_case(rng, c, kind):
         if size > 200:
             return None
         a["data"]["flat"] = [rng.randint(-9, 9) for _ in range(size)]
-    elif kind in ("same-position", "absent-position", "position-word"):
+    elif kind in ("same-position", "absent-position", "position-word", "face-to-face"):
         if kind == "same-position":
             t = frm
+        elif kind == "face-to-face":
+            # from one face position to another one the axis has (neither is the centre)
+            others = [p for p, _ in ax["pos"] if p not in ("center", frm)]
+            if frm == "center" or not others:
+                return None
+            t = rng.choice(others)
         elif kind == "absent-position":
             absent = [p for p in POS if p not in [q for q, _ in ax["pos"]]]
             if not absent:
@@ -82,7 +88,15 @@ def edit_case(rng, c, kind):
         a["to"] = M(pairs)
     elif kind == "boundary-word":
         w = rng.choice(["bogus", "Fill", "wrap", "dirichlet"])
-        a["boundary"] = S(w) if rng.random() < 0.5 else M([[x, (w if x == name else "fill")] for x in axd])
+        r_ = rng.random()
+        if r_ < 0.4:
+            a["boundary"] = S(w)
+        elif r_ < 0.7 or len(axd) == 1:
+            a["boundary"] = M([[x, (w if x == name else "fill")] for x in axd])
+        else:
+            # the unknown word sits on an axis the call does not operate on
+            other = rng.choice([x for x in axd if x != name])
+            a["boundary"] = M([[x, (w if x == other else "fill")] for x in axd])
     elif kind == "fill-nonnumeric":
         a["fill_bad"] = True
     c["edit"] = kind
